@@ -30,14 +30,18 @@ def parse_with_warnings(p, **kw):
     return [list(x) for x in sorted(cats.items())]
 
 
-def construct(delivery: dict):
-    """Build a DecFileParser from a delivery through the simulated seams."""
+def construct(delivery: dict, keep: bool = False):
+    """Build a DecFileParser from a delivery through the simulated seams.  keep=True leaves the files of earlier
+    constructions in the simulated file system (a session with several instances)."""
     from decaylanguage import DecFileParser
 
     if delivery["mode"] == "string":
         return DecFileParser.from_string(delivery["text"])
     _fs.install()
-    _fs.reset({f["name"]: f["content"].encode("utf-8") for f in delivery["files"]}, delivery.get("chunk", 0), delivery.get("fault"))
+    table = {f["name"]: f["content"].encode("utf-8") for f in delivery["files"]}
+    if keep:
+        table = {**_fs.files, **table}
+    _fs.reset(table, delivery.get("chunk", 0), delivery.get("fault"))
     fl = delivery.get("path_flavour", "str")
     names = []
     for f in delivery["files"]:
@@ -69,6 +73,20 @@ def observe(delivery: dict, expand_limit=60):
         return "parse_raises", [type(e).__name__, str(e).splitlines()[0][:200] if str(e) else ""]
     snap = snapshot(p, expand_limit=expand_limit)
     snap.append(["parse_warnings", [], {"v": pw}])
+    if delivery.get("reparse"):
+        # parsing the same input again (the files are still where they were) must change no answer
+        try:
+            with warnings.catch_warnings():
+                warnings.simplefilter("ignore")
+                p.parse()
+        except Exception as e:
+            return "reparse_raises", [type(e).__name__, str(e).splitlines()[0][:200] if str(e) else ""]
+        again = snapshot(p, expand_limit=expand_limit)
+        again.append(["parse_warnings", [], {"v": pw}])
+        if again != snap:
+            from worlds.decsnap import first_difference as _fd
+
+            return "reparse_differs", ["answers changed", str(_fd(snap, again))[:300]]
     return "ok", snap
 
 
